@@ -664,3 +664,8 @@ LEAN_TARGETS = LEAN_TARGETS + ['OdxVerif.Props.C03Nested2R']
 THEOREMS = THEOREMS + ["OdxVerif.Codec." + t for t in ['C03_reencode_nested2R', 'C03_encoded_is_canonical2R', 'descs2R_reencode_pure',
                                                         'C03_reserved_nonzero_not_reproduced', 'C03_nrcconst_decoded_not_reencodable',
                                                         'exRes_canon', 'exRes_disj']]
+# W25 (supplied values of RESERVED parameters are ignored by the encoder: Desc2R.mcFull / Descs2R.suppliedFull) — appended
+LEAN_TARGETS = LEAN_TARGETS + ['OdxVerif.Props.C03Nested2R2']
+THEOREMS = THEOREMS + ["OdxVerif.Codec." + t for t in ['C03_reserved_supplied_ignored', 'C03_reencode_nested2R_full',
+                                                        'descs2R_encodeMessage_full', 'Comp.reservedSup_ok', 'Desc2R.okMFull',
+                                                        'Desc2R.mcFull_same', 'Comp.ofValue_structO_same']]
